@@ -1,0 +1,11 @@
+//go:build !verif
+
+package das
+
+// Verification hooks (see verif_on.go); no-ops unless built with the `verif` tag.
+
+func verifCoord(*samplingCoordinator, string, ...any) {}
+
+func verifWorker(*worker, string, uint64, error) {}
+
+func verifBg(string) {}
